@@ -1,5 +1,5 @@
 SPECIFICATION Spec
 CONSTANT Tier = "quick"
-INVARIANTS NetLaws BechLaws B58Laws PkHexLaws DocLaws Vec32Laws Vec58Laws AddrLaws ScriptLaws WifLaws WifObjLaws
+INVARIANTS NetLaws BechLaws MixedLaws B58Laws PkHexLaws DocLaws Vec32Laws Vec58Laws AddrLaws ScriptLaws WifLaws WifObjLaws
            HdLaws HdVecLaws HdStrLaws TapLaws EditLaws
            EmitCase
